@@ -48,6 +48,9 @@ func nativeTypeMethods(t types.Type, name string) (Val, bool) {
 
 func (e *Exec) foreignGlobalInit(g *ssa.Global, et types.Type) Val {
 	if g.Pkg != nil && g.Pkg.Pkg.Path() == rosmarPath {
+		if g.Name() == "kSchema" {
+			return mkStr(e.L.schema) // go:embed variable: initialised by the compiler, not by init
+		}
 		return nil
 	}
 	if _, ok := et.Underlying().(*types.Interface); ok {
